@@ -1,6 +1,7 @@
 package main
 
 import (
+	"bytes"
 	"encoding/json"
 	"fmt"
 	"math/big"
@@ -365,4 +366,47 @@ func sortedKeys(m map[string]bool) []string {
 	}
 	sort.Strings(ks)
 	return ks
+}
+
+// canonJSONExact prints a JSON value for comparison: numbers by their exact value, members sorted.
+func canonJSONExact(d Doc) string {
+	switch x := d.(type) {
+	case DNull:
+		return "null"
+	case DBool:
+		if x {
+			return "t"
+		}
+		return "f"
+	case DNum:
+		return "n" + ratBits(ratOf(string(x)))
+	case DStr:
+		return "s[" + dotted(string(x)) + "]"
+	case DArr:
+		parts := make([]string, len(x))
+		for i, e := range x {
+			parts[i] = canonJSONExact(e)
+		}
+		return "a(" + strings.Join(parts, ",") + ")"
+	case DObj:
+		ms := append(DObj{}, x...)
+		sort.SliceStable(ms, func(i, j int) bool { return ms[i].K < ms[j].K })
+		parts := make([]string, len(ms))
+		for i, m := range ms {
+			parts[i] = "[" + dotted(m.K) + "]:" + canonJSONExact(m.V)
+		}
+		return "o(" + strings.Join(parts, ",") + ")"
+	}
+	panic("canonJSONExact")
+}
+
+// decodeExact decodes JSON text into map[string]any / []any / json.Number / string / bool / nil.
+func decodeExact(text []byte) any {
+	dec := json.NewDecoder(bytes.NewReader(text))
+	dec.UseNumber()
+	var x any
+	if err := dec.Decode(&x); err != nil {
+		return nil
+	}
+	return x
 }
